@@ -37,7 +37,10 @@ var named = []string{"L", "dep.T", "otherdep.T", "LG[int]", "dep.G[int]", "dep.G
 	// two packages whose directory is a Go keyword (the import name has to be sanitised AND disambiguated)
 	"kwa.Options", "dep.G2[kwa.Options, kwb.Options]", "dep.G[kwb.Options]",
 	// defined types whose KIND is that of byte / rune / string (a renderer looking at kinds only loses them)
-	"dep.B8", "dep.R32", "dep.G[dep.B8]"}
+	"dep.B8", "dep.R32", "dep.G[dep.B8]",
+	// packages of the module that are NAMED like a standard package, and that standard package, in both
+	// orders of first use within one file (codec/json before encoding/json; time before x/time)
+	"cjs.Codec", "sjs.RawMessage", "stm.Duration", "xtm.Tick", "dep.G2[cjs.Codec, sjs.RawMessage]", "dep.G2[stm.Duration, xtm.Tick]"}
 var mapKeys = []string{"string", "int", "L", "dep.T", "[2]int", "dep.K", "kwb.Options"}
 
 func atoms(full bool) []string {
@@ -92,7 +95,7 @@ func expressions(c *core.Ctx) []string {
 
 func baseModule(exprs []string) pipe.Tree {
 	var b strings.Builder
-	b.WriteString("package src\n\nimport (\n\t\"" + modPath + "/dep\"\n\totherdep \"" + modPath + "/other/dep\"\n\tyaml \"" + modPath + "/third/yaml.v3\"\n\tkwa \"" + modPath + "/conf/default\"\n\tkwb \"" + modPath + "/theme/default\"\n)\n\nvar _ dep.T\nvar _ otherdep.T\nvar _ yaml.Node\nvar _ kwa.Options\nvar _ kwb.Options\n\ntype L struct{ X int }\n\ntype LG[X any] struct{ V X }\n\n")
+	b.WriteString("package src\n\nimport (\n\t\"" + modPath + "/dep\"\n\totherdep \"" + modPath + "/other/dep\"\n\tyaml \"" + modPath + "/third/yaml.v3\"\n\tkwa \"" + modPath + "/conf/default\"\n\tkwb \"" + modPath + "/theme/default\"\n\tcjs \"" + modPath + "/codec/json\"\n\tsjs \"encoding/json\"\n\tstm \"time\"\n\txtm \"" + modPath + "/x/time\"\n)\n\nvar _ dep.T\nvar _ otherdep.T\nvar _ yaml.Node\nvar _ kwa.Options\nvar _ kwb.Options\nvar _ cjs.Codec\nvar _ sjs.RawMessage\nvar _ stm.Duration\nvar _ xtm.Tick\n\ntype L struct{ X int }\n\ntype LG[X any] struct{ V X }\n\n")
 	for i, e := range exprs {
 		fmt.Fprintf(&b, "var V_%d %s\n", i, e)
 	}
@@ -104,6 +107,8 @@ func baseModule(exprs []string) pipe.Tree {
 		"third/yaml.v3/y.go": "package yaml\n\ntype Node struct{ Kind int }\n",
 		"conf/default/o.go":  "package defaults\n\ntype Options struct{ A int }\n",
 		"theme/default/o.go": "package defaults\n\ntype Options struct{ B string }\n",
+		"codec/json/j.go":    "package json\n\ntype Codec struct{ N int }\n",
+		"x/time/t.go":        "package time\n\ntype Tick int64\n",
 		"src/src.go":         b.String(),
 		"tgt/tgt.go":         "package tgt\n",
 		"tgt2/tgt2.go":       "package tgt2\n",
@@ -306,6 +311,26 @@ func checkExprs(c *core.Ctx, exprs []string, withReflect bool) {
 		}
 	}
 	for _, j := range jobs {
+		// one file, one name per package: two registered paths never share an import name
+		byName := map[string]string{}
+		for p, name := range j.r.imports {
+			if o, dup := byName[name]; dup {
+				a, b := o, p
+				if a > b {
+					a, b = b, a
+				}
+				witness := exprs[0]
+				for _, e := range exprs {
+					ps := expectedPaths(e, targets[j.ti].pkg)
+					if strings.Contains(strings.Join(ps, " ")+" ", a+" ") && strings.Contains(strings.Join(ps, " ")+" ", b+" ") {
+						witness = e
+						break
+					}
+				}
+				c.Fail("C11-two-packages-one-import-name", Case{Expr: witness, Target: targets[j.ti].name, From: j.from}, "the tracker of one file (target: %s, from %s) registered %q and %q under the same name %s", targets[j.ti].name, j.from, a, b, name)
+			}
+			byName[name] = p
+		}
 		// the registered imports must be packages that exist; a made-up path would also keep the whole
 		// target from loading, so it is reported here and taken out together with the texts that use it
 		for p, name := range j.r.imports {
@@ -388,7 +413,8 @@ func checkExprs(c *core.Ctx, exprs []string, withReflect bool) {
 func expectedPaths(e, target string) []string {
 	set := map[string]bool{}
 	// qualifiers as written in package src
-	for q, p := range map[string]string{"otherdep.": modPath + "/other/dep", "dep.": modPath + "/dep", "yaml.": modPath + "/third/yaml.v3", "kwa.": modPath + "/conf/default", "kwb.": modPath + "/theme/default"} {
+	for q, p := range map[string]string{"otherdep.": modPath + "/other/dep", "dep.": modPath + "/dep", "yaml.": modPath + "/third/yaml.v3", "kwa.": modPath + "/conf/default", "kwb.": modPath + "/theme/default",
+		"cjs.": modPath + "/codec/json", "sjs.": "encoding/json", "stm.": "time", "xtm.": modPath + "/x/time"} {
 		rest := e
 		if q == "dep." {
 			rest = strings.ReplaceAll(e, "otherdep.", "")
@@ -399,7 +425,7 @@ func expectedPaths(e, target string) []string {
 	}
 	// local types of src: L, LG[...]
 	if target != modPath+"/src" {
-		stripped := strings.NewReplacer("otherdep.", "", "dep.", "", "yaml.", "", "kwa.", "", "kwb.", "").Replace(e)
+		stripped := strings.NewReplacer("otherdep.", "", "dep.", "", "yaml.", "", "kwa.", "", "kwb.", "", "cjs.", "", "sjs.", "", "stm.", "", "xtm.", "").Replace(e)
 		for _, tok := range strings.FieldsFunc(stripped, func(r rune) bool {
 			return !(r == '_' || r >= 'A' && r <= 'Z' || r >= 'a' && r <= 'z' || r >= '0' && r <= '9')
 		}) {
@@ -425,7 +451,7 @@ func classify(expr, text string) string {
 // reflect.TypeOf of every expression.
 func renderReflect(dir string, exprs []string, ti int) (*rendering, error) {
 	var b strings.Builder
-	b.WriteString("package main\n\nimport (\n\t\"bytes\"\n\t\"encoding/json\"\n\t\"fmt\"\n\t\"os\"\n\t\"reflect\"\n\n\t\"github.com/octohelm/gengo/pkg/gengo\"\n\t\"github.com/octohelm/gengo/pkg/gengo/snippet\"\n\t\"github.com/octohelm/gengo/pkg/namer\"\n\tgengotypes \"github.com/octohelm/gengo/pkg/types\"\n\t. \"" + modPath + "/src\"\n\t\"" + modPath + "/dep\"\n\totherdep \"" + modPath + "/other/dep\"\n\tyaml \"" + modPath + "/third/yaml.v3\"\n\tkwa \"" + modPath + "/conf/default\"\n\tkwb \"" + modPath + "/theme/default\"\n)\n\nvar _ dep.T\nvar _ otherdep.T\nvar _ yaml.Node\nvar _ kwa.Options\nvar _ kwb.Options\nvar _ L\n\n")
+	b.WriteString("package main\n\nimport (\n\t\"bytes\"\n\t\"encoding/json\"\n\t\"fmt\"\n\t\"os\"\n\t\"reflect\"\n\n\t\"github.com/octohelm/gengo/pkg/gengo\"\n\t\"github.com/octohelm/gengo/pkg/gengo/snippet\"\n\t\"github.com/octohelm/gengo/pkg/namer\"\n\tgengotypes \"github.com/octohelm/gengo/pkg/types\"\n\t. \"" + modPath + "/src\"\n\t\"" + modPath + "/dep\"\n\totherdep \"" + modPath + "/other/dep\"\n\tyaml \"" + modPath + "/third/yaml.v3\"\n\tkwa \"" + modPath + "/conf/default\"\n\tkwb \"" + modPath + "/theme/default\"\n\tcjs \"" + modPath + "/codec/json\"\n\tsjs \"encoding/json\"\n\tstm \"time\"\n\txtm \"" + modPath + "/x/time\"\n)\n\nvar _ dep.T\nvar _ otherdep.T\nvar _ yaml.Node\nvar _ kwa.Options\nvar _ kwb.Options\nvar _ cjs.Codec\nvar _ sjs.RawMessage\nvar _ stm.Duration\nvar _ xtm.Tick\nvar _ L\n\n")
 	b.WriteString("var types = []reflect.Type{\n")
 	for _, e := range exprs {
 		fmt.Fprintf(&b, "\treflect.TypeOf((*%s)(nil)).Elem(),\n", e)
